@@ -534,6 +534,7 @@ func (u *Unit) jsonMarshal(fr *Frame, st *State, v Val, sig *types.Signature, wh
 			u.assume(TTrue, And(
 				Eq(App(SInt, "IDOf", b), id), Eq(App(SInt, "TokenOf", b), tok), Eq(App(SInt, "PrioOf", b), pr),
 				App(SBool, "ParseOK", b), App(SBool, "ParseMapOK", b), Cmp(">", b, TZero), Cmp(">", App(SInt, "LenOf", b), TZero),
+				App(SBool, "IDPresent", b), App(SBool, "TokenPresent", b), Eq(App(SBool, "PrioPresent", b), Not(Eq(pr, TZero))),
 				App(SBool, "maphas", mp, u.eng.strID("token")), App(SBool, "maphas", mp, u.eng.strID("id")),
 				Eq(App(SInt, "typeof", tokv), strT), Eq(App(SInt, "pay", tokv), tok), Cmp(">", tokv, TZero),
 				Eq(App(SInt, "typeof", idv), strT), Eq(App(SInt, "pay", idv), id), Cmp(">", idv, TZero)))
@@ -570,9 +571,23 @@ func (u *Unit) jsonUnmarshal(fr *Frame, st *State, data Val, target Val, sig *ty
 	switch {
 	case isPayloadStruct(p.Elem):
 		ok := App(SBool, "ParseOK", b)
-		id := Ite(ok, App(SInt, "IDOf", b), u.fresh(SInt, "partial_id"))
-		tok := Ite(ok, App(SInt, "TokenOf", b), u.fresh(SInt, "partial_tok"))
-		pr := Ite(ok, App(SInt, "PrioOf", b), u.fresh(SInt, "partial_prio"))
+		// encoding/json leaves a struct field untouched when its key is absent:
+		// IDOf/TokenOf/PrioOf denote the result of decoding into a ZERO struct,
+		// decoding into a used struct keeps the old value of an absent field.
+		oldV, _ := u.loadPtr(fr, st, p, where).(*StructV)
+		oldT := func(i int) Term {
+			if oldV != nil && i < len(oldV.F) {
+				return u.termOf(oldV.F[i])
+			}
+			return TZero
+		}
+		u.assume(TTrue, And(
+			Implies(Not(App(SBool, "IDPresent", b)), Eq(App(SInt, "IDOf", b), TZero)),
+			Implies(Not(App(SBool, "TokenPresent", b)), Eq(App(SInt, "TokenOf", b), TZero)),
+			Implies(Not(App(SBool, "PrioPresent", b)), Eq(App(SInt, "PrioOf", b), TZero))))
+		id := Ite(ok, Ite(App(SBool, "IDPresent", b), App(SInt, "IDOf", b), oldT(0)), u.fresh(SInt, "partial_id"))
+		tok := Ite(ok, Ite(App(SBool, "TokenPresent", b), App(SInt, "TokenOf", b), oldT(1)), u.fresh(SInt, "partial_tok"))
+		pr := Ite(ok, Ite(App(SBool, "PrioPresent", b), App(SInt, "PrioOf", b), oldT(2)), u.fresh(SInt, "partial_prio"))
 		sv := &StructV{Typ: p.Elem, F: []Val{
 			&Scalar{T: u.define(id, "pid"), Typ: types.Typ[types.String]},
 			&Scalar{T: u.define(tok, "ptok"), Typ: types.Typ[types.String]},
